@@ -336,6 +336,10 @@ struct Engine
             if (m.moved_from)
             {
                 if (m.residual) { ++residual; expect_tracked += m.residual_objects; }
+                // a vector whose storage was taken over owns nothing: memory_consumption() (an observer without preconditions)
+                // must not keep reporting the block it gave away
+                else if (std::as_const(*s[i].v).memory_consumption() != 0)
+                    viol("C05,C02", "moved_from_reports_memory", fmt("v%d gave its storage away but memory_consumption() == %zu", i, std::as_const(*s[i].v).memory_consumption()));
                 continue;
             }
             char who[8];
